@@ -508,6 +508,8 @@ def run(tier: str) -> int:
         "event times are supplied integers; register's time.monotonic() stamp is compared as 'some time'",
     ]
     ck.prove(extractors=["RegistryCatch"])
+    if tier == "thorough" and ck.build_ok:
+        ck.leanchecker()
     drv = LeanDriver("C17")
     old = signal.signal(signal.SIGALRM, _alarm)
     try:
